@@ -7,6 +7,8 @@ void exit(int code) {
   g_exit = 1; g_exit_code = code;
   __CPROVER_assert(g_b0.r == 0 && g_b0.i == 0, "exit is reached only for a zero divisor");
   __CPROVER_assert(g_msgs == 1 && code == -1, "exit(-1) after exactly one message");
+#if FIXED == 0
   __CPROVER_assert(0, "canary: a zero divisor reaches exit(-1)");
+#endif
   __CPROVER_assume(0);
 }
